@@ -102,7 +102,7 @@ func c05(w *World) {
 
 		var sends []*appSend
 		nTasks := 1 + w.W.Draw(8)
-		per := 1 + w.W.Draw(12)
+		per := 1 + w.W.Draw(w.Deep(12))
 		if w.W.Chance(1, 8) {
 			per = 12 + w.W.Draw(19)
 		}
